@@ -12,6 +12,7 @@ import time
 import z3
 
 _CUR = [None]
+_DEPTH = [0]
 
 
 def cur():
@@ -60,6 +61,7 @@ class VC:
         self.fin_bounds = []                # z3 Int constants to be bounded in finitised mode
         self.dropped = {}
         self._sigs = set()
+        self.hooks = {}
         self.reset_path([])
         self.out_of_subset = []
         self.loop_seen_step = set()
@@ -111,8 +113,18 @@ class VC:
         self._sigs.add(o.sig)
         self.obligations.append(o)
 
+    def cut(self, name, fact):
+        """ghost assertion: prove `fact` here (obligation lemma-step[name]), then use it"""
+        fact = _z(fact)
+        self.oblige('lemma-step[%s]' % name, fact)
+        self.assume(fact)
+
     def libcall(self, name, value):
-        self.libcalls.setdefault(name, []).append(value)
+        lst = self.libcalls.setdefault(name, [])
+        lst.append(value)
+        h = self.hooks.get((name, len(lst) - 1))       # ghost statement anchored at the k-th call of a library function
+        if h is not None:
+            h(self, value)
         return value
 
     # ------------------------------------------------------------------ forking
@@ -219,17 +231,46 @@ def forall_range(lo, hi, body, name='q', vc=None):
     vc = vc or cur()
     lo, hi = _zi(lo), _zi(hi)
     if vc.fin is None:
-        v = z3.Int('%s!%d' % (name, next(vc._counter)))
-        return z3.ForAll([v], z3.Implies(z3.And(lo <= v, v < hi), _z(body(v))))
+        # bound-variable names depend on the nesting depth only, so building the same formula twice gives
+        # the SAME z3 AST (a lemma hypothesis then matches the fact on the path condition as one atom)
+        v = z3.Int('%s@%d' % (name, _DEPTH[0]))
+        _DEPTH[0] += 1
+        try:
+            b = _z(body(v))
+        finally:
+            _DEPTH[0] -= 1
+        return z3.ForAll([v], z3.Implies(z3.And(lo <= v, v < hi), b))
     return z3.And([z3.Implies(z3.And(lo <= j, j < hi), _z(body(z3.IntVal(j)))) for j in range(-1, vc.fin + 1)])
+
+
+def forall2_range(lo, hi, body, name='q', vc=None):
+    """forall i, j in [lo, hi). body(i, j)  as ONE two-variable quantifier (better triggers than nesting)"""
+    vc = vc or cur()
+    lo, hi = _zi(lo), _zi(hi)
+    if vc.fin is None:
+        a = z3.Int('%sa@%d' % (name, _DEPTH[0]))
+        b = z3.Int('%sb@%d' % (name, _DEPTH[0]))
+        _DEPTH[0] += 1
+        try:
+            bd = _z(body(a, b))
+        finally:
+            _DEPTH[0] -= 1
+        return z3.ForAll([a, b], z3.Implies(z3.And(lo <= a, a < hi, lo <= b, b < hi), bd))
+    rng = range(-1, vc.fin + 1)
+    return z3.And([z3.Implies(z3.And(lo <= i, i < hi, lo <= j, j < hi), _z(body(z3.IntVal(i), z3.IntVal(j)))) for i in rng for j in rng])
 
 
 def exists_range(lo, hi, body, name='e', vc=None):
     vc = vc or cur()
     lo, hi = _zi(lo), _zi(hi)
     if vc.fin is None:
-        v = z3.Int('%s!%d' % (name, next(vc._counter)))
-        return z3.Exists([v], z3.And(lo <= v, v < hi, _z(body(v))))
+        v = z3.Int('%s@%d' % (name, _DEPTH[0]))
+        _DEPTH[0] += 1
+        try:
+            b = _z(body(v))
+        finally:
+            _DEPTH[0] -= 1
+        return z3.Exists([v], z3.And(lo <= v, v < hi, b))
     return z3.Or([z3.And(lo <= j, j < hi, _z(body(z3.IntVal(j)))) for j in range(-1, vc.fin + 1)])
 
 
@@ -239,8 +280,13 @@ def forall_sort(sort, body, name='k', vc=None, universe=None):
     domain axiom that the contract adds)."""
     vc = vc or cur()
     if vc.fin is None or universe is None:
-        v = z3.Const('%s!%d' % (name, next(vc._counter)), sort)
-        return z3.ForAll([v], _z(body(v)))
+        v = z3.Const('%s@%d' % (name, _DEPTH[0]), sort)
+        _DEPTH[0] += 1
+        try:
+            b = _z(body(v))
+        finally:
+            _DEPTH[0] -= 1
+        return z3.ForAll([v], b)
     return z3.And([_z(body(u)) for u in universe])
 
 
